@@ -113,6 +113,8 @@ where
                     .name(format!("checker-{}", t))
                     .spawn(move || {
                         log::debug!("{}: Thread started.", t);
+                        #[cfg(getong_stateright_verif)]
+                        crate::verif::set_worker(t);
                         let mut pending = VecDeque::new();
                         let mut targetted_pending = VecDeque::new();
                         let mut wait_for_fingerprints = true;
@@ -123,6 +125,8 @@ where
                                     crate::verif::yield_point(31);
                                     let jobs = job_broker.pop();
                                     if jobs.is_empty() {
+                                        #[cfg(getong_stateright_verif)]
+                                        crate::verif::trace(crate::verif::TR_STOP, 4, 0);
                                         log::debug!(
                                             "{}: No more work. Shutting down... gen={}",
                                             t,
@@ -174,6 +178,8 @@ where
                                         }
                                     } else {
                                         // no commands left so we can finish
+                                        #[cfg(getong_stateright_verif)]
+                                        crate::verif::trace(crate::verif::TR_STOP, 5, 0);
                                         return;
                                     }
                                 }
@@ -200,6 +206,8 @@ where
                             if job_broker.is_shut_down() {
                                 // Timed out, or another worker stopped: observed once per
                                 // block even if this worker never shares or requests work.
+                                #[cfg(getong_stateright_verif)]
+                                crate::verif::trace(crate::verif::TR_STOP, 3, 0);
                                 log::debug!("{}: Market shut down. Shutting down...", t);
                                 return;
                             }
@@ -207,6 +215,8 @@ where
                                 &discoveries.iter().map(|r| *r.key()).collect(),
                                 &properties,
                             ) {
+                                #[cfg(getong_stateright_verif)]
+                                crate::verif::trace(crate::verif::TR_STOP, 1, 0);
                                 log::debug!(
                                     "{}: Discovery complete. Shutting down... gen={}",
                                     t,
@@ -216,6 +226,8 @@ where
                             }
                             if let Some(target_state_count) = target_state_count {
                                 if target_state_count.get() <= state_count.load(Ordering::Relaxed) {
+                                    #[cfg(getong_stateright_verif)]
+                                    crate::verif::trace(crate::verif::TR_STOP, 2, 0);
                                     log::debug!(
                                         "{}: Reached target state count. Shutting down... gen={}",
                                         t,
@@ -283,12 +295,16 @@ where
         let mut local_pending = pending
             .drain(..max_count.min(pending.len()))
             .collect::<Vec<_>>();
+        #[cfg(getong_stateright_verif)]
+        crate::verif::trace(crate::verif::TR_BLOCK, local_pending.len() as u64, 0);
         loop {
             // Done if none pending.
             let (state, state_fp, mut ebits, max_depth) = match local_pending.pop() {
                 None => return,
                 Some(pair) => pair,
             };
+            #[cfg(getong_stateright_verif)]
+            crate::verif::trace(crate::verif::TR_TAKE, state_fp.get(), max_depth.get() as u64);
 
             if max_depth.get() > current_max_depth {
                 let _ = global_max_depth.compare_exchange(
@@ -315,6 +331,8 @@ where
             let mut is_awaiting_discoveries = false;
             for (i, property) in properties.iter().enumerate() {
                 if discoveries.contains_key(property.name) {
+                    #[cfg(getong_stateright_verif)]
+                    crate::verif::trace(crate::verif::TR_PROP, i as u64, 0);
                     // Stop tracking: the condition is no longer evaluated along this path, so
                     // a later terminal state must not replace the discovery.
                     ebits.remove(i);
@@ -328,8 +346,14 @@ where
                     } => {
                         if !always(model, &state) {
                             // Races other threads, but that's fine.
+                            #[cfg(getong_stateright_verif)]
+                            let _g = crate::verif::trace_guard();
+                            #[cfg(getong_stateright_verif)]
+                            crate::verif::trace(crate::verif::TR_PROP, i as u64, 1);
                             discoveries.insert(property.name, state_fp);
                         } else {
+                            #[cfg(getong_stateright_verif)]
+                            crate::verif::trace(crate::verif::TR_PROP, i as u64, 2);
                             is_awaiting_discoveries = true;
                         }
                     }
@@ -340,8 +364,14 @@ where
                     } => {
                         if sometimes(model, &state) {
                             // Races other threads, but that's fine.
+                            #[cfg(getong_stateright_verif)]
+                            let _g = crate::verif::trace_guard();
+                            #[cfg(getong_stateright_verif)]
+                            crate::verif::trace(crate::verif::TR_PROP, i as u64, 1);
                             discoveries.insert(property.name, state_fp);
                         } else {
+                            #[cfg(getong_stateright_verif)]
+                            crate::verif::trace(crate::verif::TR_PROP, i as u64, 2);
                             is_awaiting_discoveries = true;
                         }
                     }
@@ -355,6 +385,8 @@ where
                         // states, so if we are here it means we are still awaiting a corresponding
                         // discovery regardless of whether the eventually property is now satisfied
                         // (i.e. it might be falsifiable via a different path).
+                        #[cfg(getong_stateright_verif)]
+                        crate::verif::trace(crate::verif::TR_PROP, i as u64, 2);
                         is_awaiting_discoveries = true;
                         if eventually(model, &state) {
                             ebits.remove(i);
@@ -363,6 +395,8 @@ where
                 }
             }
             if !is_awaiting_discoveries {
+                #[cfg(getong_stateright_verif)]
+                crate::verif::trace(crate::verif::TR_BLOCK_END, local_pending.len() as u64, 0);
                 return;
             }
 
@@ -393,9 +427,15 @@ where
                 // property held on the path leading to the first visit as meaning
                 // that it holds in the path leading to the second visit -- another
                 // possible false-negative.
+                #[cfg(getong_stateright_verif)]
+                let _g = crate::verif::trace_guard();
                 if let Entry::Vacant(next_entry) = generated.entry(next_fp) {
+                    #[cfg(getong_stateright_verif)]
+                    crate::verif::trace(crate::verif::TR_EXPAND, next_fp.get(), 1);
                     next_entry.insert(Some(state_fp));
                 } else {
+                    #[cfg(getong_stateright_verif)]
+                    crate::verif::trace(crate::verif::TR_EXPAND, next_fp.get(), 0);
                     // FIXME: arriving at an already-known state may be a loop (in which case it
                     // could, in a fancier implementation, be considered a terminal state for
                     // purposes of eventually-property checking) but it might also be a join in
@@ -421,6 +461,10 @@ where
                 for (i, property) in properties.iter().enumerate() {
                     if ebits.contains(i) {
                         // Races other threads, but that's fine.
+                        #[cfg(getong_stateright_verif)]
+                        let _g = crate::verif::trace_guard();
+                        #[cfg(getong_stateright_verif)]
+                        crate::verif::trace(crate::verif::TR_RECORD, i as u64, 0);
                         discoveries.insert(property.name, state_fp);
                     }
                 }
